@@ -282,7 +282,9 @@ def run_shard(sh, ctx):
 	rng = random.Random(f'C05-{ctx.seed}-{sh["sub"]}')
 	maxthreads = 0
 	for ci in range(sh['ncoll']):
-		coll = gen_collection(rng)
+		# under the sanitizer: some collections large enough that NumPy allocates values / bounds / out exactly (>= 1 KiB bypasses its
+		# small-block cache), so that a one-element overrun lands in an ASan red zone instead of allocator padding
+		coll = gen_collection(rng, rng.choice([257, 300])) if (sh.get('sanitizer') and ci % 2 == 0) else gen_collection(rng)
 		n = len(coll)
 		qdt = rng.choice(M.DTYPES)
 		queries = [rng.choice(coll) if coll and rng.random() < 0.4 else s for s in gen_collection(rng, rng.randint(1, 5))]
